@@ -16,6 +16,20 @@ claimed = {
          "A9, A10; the claim excludes the 771 listed known findings (genuine defect, DESIGN.md 6.2)", "5"),
  "C06": ("proof", "Every Score() postcondition pins the result to a tenth-grid double with explicit range (446k ground obligations shared with C01-C05, using only the weak grid stage of the v2 adjusted base score so that C05's known finding does not enter); severity(score) has a symbolic contract over all doubles; each Severity() is proved to be the rating band of its own level's score for every grid value (replace families, cut-point obligation fails if another level's score is used); FormatFloat of the 101 grid doubles prints at most one decimal.",
          "A5 (FormatFloat oracle table from the real function), A9, A10", "5"),
+ "C07": ("proof", "Each v3 Decode carries the postcondition (err == nil) <==> wf_v3_<level>(vector) for EVERY string (any number and content of tokens): loop invariant over the processed token prefix, decodeOne under a total case-analysis contract at each level (delegation to the lower level included), GetVersion/Get<Metric> against the specification's code tables; wf is the property's sentence over the pieces of strings.Split. Plus exact execution of every canonical vector with symbolic valid codes.",
+         "A1 (contract of strings.Split), A2 (errs), A10", "5"),
+ "C08": ("proof", "Each v2 Decode: accepted => the string IS the canonical concatenation of the valid decoded codes, groups all-or-nothing (postcondition for every string, loop invariant + Encode contract); canonical => accepted: every canonical vector of the level (4 shapes, symbolic valid codes, constructor-fresh and nil receiver) is executed exactly and accepted with those fields.",
+         "A1, A2, A3 (Sprintf), A4 (Builder), A10", "5"),
+ "C09": ("proof", "Decode postconditions pin every field (and the v3 version) to the parse of the value of the uniquely named token, defaults for unwritten v3 metrics, v2 group flags; order independence and 'X = omitted' follow from the form of the postcondition (meta step stated in the evidence).",
+         "A1, A2, A10", "5"),
+ "C10": ("proof", "Encode/String contracts give the exact canonical text; v2 encoding byte-identical to the input by Decode's postcondition; round trip through exact execution of the canonical text of symbolic valid field assignments (scenarios) for all six decoders.",
+         "A1-A4, A10", "5"),
+ "C11": ("proof", "Errors are modelled by their errors.Is match set (12-bit vector over the 11 sentinels); every return of the six decoders is proved to carry exactly one sentinel whose defect predicate (stated over the token list) holds, for every input string.",
+         "A1, A2 (errs.Wrap keeps the match set, WithCause adds the cause's), A10", "5"),
+ "C12": ("proof", "Unannotated safety obligations (nil dereference per hop, index/slice bounds, nil-map write) at every operation of every function of v2/metric and v3/metric under contract, under 'receiver nil or object invariant'; invariant established by constructors, preserved by all methods incl. failed Decode; Decode returns exactly one of object/error for every string; unknown/invalid state => error from GetError/Encode and score +0.0.",
+         "A2 (library calls do not panic), A10; IsEmpty on a nil receiver is outside the property's observer list (contract requires non-nil, all internal call sites proved)", "5"),
+ "C14": ("proof", "Accessor contracts (the embedded object itself), Decode postconditions for the embedded objects, functional and frame contracts of Score/Severity/Encode; composition is a meta step stated in the evidence.",
+         "A1-A5, A9, A10", "5"),
  "C13": ("proof", "Neutrality and monotonicity as conjuncts of the temporal/environmental family postconditions (temporal with all Not Defined === base, temporal <= base, v2 TD:N => 0) plus spec-side lemma families (v3 environmental equations with all metrics Not Defined collapse to the temporal ones except scope-changed 3.1: 5,184 ground lemma instances; Modified X = base by the eff_ contracts).",
          "A5, A9, A10; rests on the C02/C03/C05 stage obligations but not on C05's refuted adjusted-base equation", "5"),
  "C20": ("proof", "Symbolic contracts (all strings, all integers) on every Get<Metric>, String, Value, IsUnknown/IsValid/IsDefined/IsChanged of the 36 metric types and the version printer/parser against tables written from the FIRST documents: parse/print inverse, everything else unknown, weights equal the specification (scope-dependent PR, Modified falls back to base).",
